@@ -113,9 +113,9 @@ def _run_shard(args):
     try:
         os.environ['PYTHONHASHSEED'] = '0'
         mod = importlib.import_module(modname)
-        t0 = time.time()
+        t0 = time.perf_counter()
         res = mod.shard(seed, tier, shard, nshards)
-        res['wall'] = time.time() - t0
+        res['wall'] = time.perf_counter() - t0
         return ('ok', res)
     except BaseException:  # harness error, reported as exit 2
         return ('err', 'shard %d: %s' % (shard, traceback.format_exc()))
@@ -184,7 +184,7 @@ def regression_cases(pid):
 
 
 def run_property(pid, tier, seed, nshards=None, replay=None, workers=None):
-    t_start = time.time()
+    t_start = time.perf_counter()
     modname = 'vf.props.' + pid.lower()
     mod = importlib.import_module(modname)
     known = load_known(pid)
@@ -296,7 +296,7 @@ def run_property(pid, tier, seed, nshards=None, replay=None, workers=None):
         print('VIOLATION property=%s replay=%s' % (pid, path))
         print('  signature: %s (seen %d times)\n  %s' % (f['sig'], counts_by_sig[f['sig']], f['msg'][:800].replace('\n', '\n  ')))
 
-    wall = time.time() - t_start
+    wall = time.perf_counter() - t_start
     sample_out = samples[:5] if samples else []
     if not sample_out and all_failures:
         sample_out = [next(iter(all_failures.values()))['case']]
